@@ -39,6 +39,9 @@ def _constructor(init):
             raise Unrecognised(f"__init__ no longer writes FieldWrapper.{cls_attr}")
     if "self._preprocessing_done: bool = False" not in texts and "self._preprocessing_done = False" not in texts:
         raise Unrecognised("__init__: _preprocessing_done initialisation")
+    for t in ("self.conflict_resolution = conflict_resolution", "self._conflict_resolver = ConflictResolver(self.conflict_resolution)"):
+        if t not in texts:
+            raise Unrecognised(f"__init__: `{t}`")
 
 
 def _preprocessing(fn):
@@ -52,6 +55,22 @@ def _preprocessing(fn):
     if has_guard != sets_done:
         raise Unrecognised("_preprocessing: guard and `_preprocessing_done = True` do not go together")
     cached = has_guard
+    # WHERE is the flag assigned relative to the work: last statement (a set-up that raises is redone by the next call)
+    # or right after the guard (a set-up that raises leaves the parser half-built for good)
+    after_work = True
+    if sets_done:
+        if texts.count("self._preprocessing_done = True") != 1:
+            raise Unrecognised("_preprocessing: _preprocessing_done assigned more than once")
+        at = texts.index("self._preprocessing_done = True")
+        if at == len(texts) - 1:
+            after_work = True
+        elif at == 1:
+            after_work = False
+        else:
+            raise Unrecognised("_preprocessing: `_preprocessing_done = True` is neither the last statement nor right after the guard")
+    if any("_preprocessing_done" in unparse(n) for st in body for n in ast.walk(st)
+           if isinstance(n, (ast.Try, ast.With))):
+        raise Unrecognised("_preprocessing: _preprocessing_done handled inside try/with")
     # where are option strings first generated?  (the conflict resolver reads FieldWrapper.option_strings)
     uses = [i for i, t in enumerate(texts) if "_conflict_resolver" in t or "_resolve_subgroups" in t or ".add_arguments(" in t]
     if not uses:
@@ -74,7 +93,7 @@ def _preprocessing(fn):
         reasserts = True
     else:
         raise Unrecognised("_preprocessing: the three settings are re-asserted only partly or too late")
-    return reasserts, cached
+    return reasserts, cached, after_work
 
 
 def _config_arg(fn):
@@ -189,7 +208,7 @@ def _parse_tuple(fn):
 def emit(repo: str) -> str:
     pt = parse(repo, "simple_parsing/parsing.py")
     _constructor(find_def(pt, "__init__", cls="ArgumentParser"))
-    reasserts, cached = _preprocessing(find_def(pt, "_preprocessing", cls="ArgumentParser"))
+    reasserts, cached, after_work = _preprocessing(find_def(pt, "_preprocessing", cls="ArgumentParser"))
     every = _config_arg(find_def(pt, "parse_known_args", cls="ArgumentParser"))
     _print_help(find_def(pt, "print_help", cls="ArgumentParser"))
     persist = _set_defaults(find_def(pt, "set_defaults", cls="ArgumentParser"))
@@ -209,8 +228,11 @@ def emit(repo: str) -> str:
         f"Definition tuple_counter_persists_gen : bool := {_b(counter)}.\n"
         "(* does set_defaults(config file) write onto the wrappers / constructor_arguments for good *)\n"
         f"Definition defaults_persist_gen : bool := {_b(persist)}.\n"
+        "(* is `_preprocessing_done = True` the last statement of _preprocessing (false: assigned before the work) *)\n"
+        f"Definition done_after_work_gen : bool := {_b(after_work)}.\n"
         "Definition facts_gen : facts :=\n"
-        "  mkfacts reasserts_gen cfgarg_every_parse_gen setup_cached_gen tuple_counter_persists_gen defaults_persist_gen.\n"
+        "  mkfacts reasserts_gen cfgarg_every_parse_gen setup_cached_gen tuple_counter_persists_gen defaults_persist_gen\n"
+        "          done_after_work_gen.\n"
         "Definition step_gen := step facts_gen.\n"
         "Definition fresh_gen := fresh facts_gen.\n"
         "Definition benign_gen := benign facts_gen.\n"
